@@ -289,6 +289,16 @@ impl Array4 {
         self.estimator.set_hip_accum(value);
     }
 
+    /// Whether the HIP accumulator is invalid (registers were merged, not streamed)
+    pub(super) fn is_out_of_order(&self) -> bool {
+        self.estimator.is_out_of_order()
+    }
+
+    /// Mark the HIP accumulator as invalid; estimates then use the composite estimator
+    pub(super) fn set_out_of_order(&mut self, ooo: bool) {
+        self.estimator.set_out_of_order(ooo);
+    }
+
     /// Check if the sketch is empty (all slots are zero)
     pub fn is_empty(&self) -> bool {
         self.num_at_cur_min == (1 << self.lg_config_k) && self.cur_min == 0
